@@ -750,6 +750,94 @@ pub fn alias_random_structural<W: Wt>(ctx: &Ctx, cases: u32) {
     }
 }
 
+/// Integer alias tables with a small weight sum: sample() is a deterministic function of two uniform draws,
+/// the column i in 0..n (a `Uniform<u32>`) and the level t in 0..S (a `Uniform<W>`). rand's `Uniform` maps a
+/// word v to floor(v * range / 2^b) when the low half of the product is >= 2^b mod range; the word
+/// ceil(x * 2^b / range) + 1 yields x and is always accepted while range <= 2^(b-1). Enumerating all n*S
+/// pairs, index j must be returned exactly n * w_j times: the exact induced law of the table *as sampled*
+/// (weights() only reflects the table as stored; an off-by-one in sample()'s comparison moves 1/(n S) of the
+/// mass per column, far below the frequency tests).
+fn alias_exact_pairs<W: Wt>(ctx: &Ctx, bits: u32)
+where
+    WeightedAliasIndex<W>: Send + Clone,
+{
+    let vectors = if cfg!(debug_assertions) { 20 } else if ctx.thorough() { 3000 } else { 300 };
+    let mut r = BaseRng::from_env(hseed(&[ctx.seed, crate::rng::hstr(W::NAME), 0xA1E7]));
+    let cap = W::imax();
+    let mut pairs_total = 0u64;
+    for vi in 0..vectors {
+        let len = match vi % 4 {
+            0 => r.random_range(1..=4usize),
+            1 => *[7usize, 8, 9, 15, 16, 17, 31, 32, 33, 63, 64].get(r.random_range(0..11)).unwrap(),
+            _ => r.random_range(1..=64usize),
+        };
+        let mut ws: Vec<u128> = vec![];
+        let mut tot = 0u128;
+        for _ in 0..len {
+            let v = [0u128, 0, 1, 1, 1, 2, 3, 5, 8, 17, 40][r.random_range(0..11)];
+            // every weight must also satisfy w <= MAX / len (the documented acceptance condition)
+            let v = if tot + v > cap || v > cap / len as u128 { 0 } else { v };
+            tot += v;
+            ws.push(v);
+        }
+        if tot == 0 || (len as u128) * tot > (1 << 20) {
+            continue;
+        }
+        let model: Vec<M> = ws.iter().map(|&mag| M::I { neg: false, mag }).collect();
+        let alias = match catch(|| WeightedAliasIndex::<W>::new(model.iter().map(|&m| W::from_m(m)).collect::<Vec<W>>())) {
+            Ok(Ok(a)) => a,
+            _ => continue, // constructor outcomes are judged by the structural part
+        };
+        let n = len as u128;
+        let base = VRng::mix(hseed(&[ctx.seed, vi as u64, 0xA1E8]));
+        let mut counts = vec![0u64; len];
+        let mut bad: Option<String> = None;
+        'outer: for i in 0..n {
+            let w0 = ((((i << 32) + n - 1) / n) as u64 + 1) << 32;
+            for t in 0..tot {
+                let v = ((t << bits) + tot - 1) / tot + 1;
+                let w1 = if bits == 32 { (v as u64) << 32 } else { v as u64 };
+                let mut rng = base.clone();
+                rng.force(0, w0);
+                rng.force(1, w1);
+                rng.begin_call();
+                match catch(|| Distribution::sample(&alias, &mut rng)) {
+                    Ok(j) if j < len => {
+                        counts[j] += 1;
+                        if rng.call_words != 2 {
+                            bad = Some(format!("column {i}, level {t}: {} words consumed instead of 2", rng.call_words));
+                            break 'outer;
+                        }
+                    }
+                    Ok(j) => {
+                        bad = Some(format!("column {i}, level {t}: index {j} >= len"));
+                        break 'outer;
+                    }
+                    Err(m) => {
+                        bad = Some(format!("column {i}, level {t}: panic: {}", m.lines().next().unwrap_or("")));
+                        break 'outer;
+                    }
+                }
+            }
+        }
+        pairs_total += (n * tot) as u64;
+        ctx.eval((n * tot) as u64);
+        ctx.nontrivial(hseed(&[crate::rng::hstr(W::NAME), vi as u64, 0x12]));
+        if bad.is_none() {
+            for (j, &w) in ws.iter().enumerate() {
+                if counts[j] as u128 != n * w {
+                    bad = Some(format!("index {j} (weight {w}) is returned for {} of the {} equally likely (column, level) pairs, expected n*w = {}", counts[j], n * tot, n * w));
+                    break;
+                }
+            }
+        }
+        if let Some(msg) = bad {
+            viol(ctx, "WeightedAliasIndex", W::NAME, "exact_law", "all_pairs", format!("WeightedAliasIndex<{}> {}: {}", W::NAME, show(&model), msg), json!({"kind": "alias", "alias": AliasCase { wt: W::NAME.into(), ws: model.clone() }}));
+        }
+    }
+    ctx.class(&format!("c08:exact_pairs_enumerated:{}", W::NAME), pairs_total);
+}
+
 fn c08_one<W: Wt>(ctx: &Ctx)
 where
     WeightedAliasIndex<W>: Send + Clone,
@@ -787,6 +875,15 @@ pub fn run_c04_part(ctx: &Ctx) {
 
 pub fn run_c08(ctx: &Ctx) {
     for_all_wt!(c08_one(ctx));
+    // exact induced law over all (column, level) pairs (integer types whose level draw is one 32- or 64-bit word)
+    alias_exact_pairs::<u8>(ctx, 32);
+    alias_exact_pairs::<u16>(ctx, 32);
+    alias_exact_pairs::<u32>(ctx, 32);
+    alias_exact_pairs::<i8>(ctx, 32);
+    alias_exact_pairs::<i16>(ctx, 32);
+    alias_exact_pairs::<i32>(ctx, 32);
+    alias_exact_pairs::<u64>(ctx, 64);
+    alias_exact_pairs::<i64>(ctx, 64);
 }
 
 // ------------------------------------------------------------------------------------------------
